@@ -301,7 +301,7 @@ def interpolate_bad_channels(
         if imult.size == 0:
             data[i, :] = 0
             continue
-        data[i, :] = gp.matmul(weights[imult], data[imult, :])
+        data[i, :] = gp.matmul(weights[imult] / gp.sum(weights[imult]), data[imult, :])
     # from viewephys.gui import viewephys
     # f = viewephys(data.T, fs=1/30, h=h, title='interp2')
     return data
